@@ -68,6 +68,10 @@ def work(item):
             check_term(term, part, configs=configs)
             part.c['scaled_terms'] += 1
         return part
+    if item[0] == 'many':
+        part = core.Part()
+        D.check_many_groups(part, PROPERTY)
+        return part
     if item[0] == 'wrap':
         part = core.Part()
         a = D.alphabet()
@@ -115,6 +119,9 @@ def plan(tier, seed):
     desc.append('re-entrant contextual: every classic-algebra term of size <= %d (%d terms) with each single '
                 'subterm position in turn wrapped in a contextual whose function runs a complete unrelated '
                 'layout before returning the subterm' % (kw, nw))
+    items.append(('many',))
+    desc.append('many-groups family: 3 / 400 / 700 small independent groups in one top-level sequence (more than 1000 pending '
+                'documents) x %d (width, ribbon) settings, against the closed form of that family' % (len(D.many_groups_configs()) // 3))
     ns = len(D.scaled_documents())
     items += [('scaled', i, i + 1) for i in range(ns)]
     desc.append('%d scaled documents (one group around 50..700 words, plain / nested / followed by text) at widths around their flat length and far above 1000 columns' % ns)
@@ -144,6 +151,11 @@ def run(tier, seed):
 
 
 def replay(case):
+    if case.get('family') == 'many-groups':
+        part = core.Part()
+        D.check_many_groups(part, PROPERTY)
+        mine = [v for v in part.violations if v['case'] == case]
+        return not mine, '\n'.join(['case: %s' % case] + ['violation kind=%s detail=%s' % (v['kind'], v['detail']) for v in mine])
     part = core.Part()
     check_term(case['term'], part)
     mine = [v for v in part.violations if v['case'].get('width') == case.get('width')
